@@ -22,6 +22,31 @@ def restore():
     sh(["git", "-C", REPO, "clean", "-fdq"])
 
 
+# which checks build on which part of the source (harness package, extracted facts): used by --relevant
+RELEVANT = [
+    ("internal/api/", ["C04", "C05", "C10", "C11", "C15", "C16", "C17", "C19", "C20", "C01"]),
+    ("internal/ircserver/", ["C01", "C02", "C03", "C06", "C10", "C12", "C13", "C14", "C15", "C16", "C17", "C20"]),
+    ("internal/outputstream/", ["C02", "C04", "C05", "C08", "C18", "C20", "C01"]),
+    ("internal/raftstore/", ["C05", "C07", "C09", "C18", "C20"]),
+    ("internal/timesafeguard/", ["C19"]),
+    ("internal/robust/", ["C01", "C07", "C10", "C18"]),
+    ("internal/config/", ["C16", "C01"]),
+    ("statemachine.go", ["C01", "C02", "C05", "C07", "C10", "C16", "C20"]),
+    ("compaction.go", ["C01", "C02", "C05", "C18"]),
+    ("robustirc.go", ["C05", "C11"]),
+]
+
+
+def relevant(patch):
+    files = [l.split(" b/", 1)[1].strip() for l in open(patch) if l.startswith("diff --git ")]
+    out = set()
+    for f in files:
+        for pre, cs in RELEVANT:
+            if f.startswith(pre):
+                out |= set(cs)
+    return out
+
+
 def main():
     man = json.load(open(os.path.join(ROOT, "MANIFEST.json")))
     claimed = [c["property_id"] for c in man["checks"]]
@@ -43,13 +68,14 @@ def main():
             continue
         try:
             alarms = {}
-            for chk in claimed:
+            todo = [c for c in claimed if "--relevant" not in sys.argv or c in relevant(patch)]
+            for chk in todo:
                 rc, out = sh([os.path.join(ROOT, "check"), chk, "quick"], cwd=ROOT, env=dict(os.environ, VERIF_SEED="1"))
                 if rc != 0:
                     v = [l for l in out.splitlines() if l.startswith("VIOLATION")]
                     ob = [l for l in out.splitlines() if l.startswith("OBLIGATION FAILED")]
                     alarms[chk] = {"line": (v[0] if v else "")[:200], "obligation": (ob[0] if ob else "")[:300]}
-            results[key] = {"alarms": alarms}
+            results[key] = {"alarms": alarms, "checks_run": todo}
             print(key, "alarms:", sorted(alarms) or "none")
         finally:
             restore()
